@@ -20,12 +20,14 @@
           MODE = "universe"  sampled corpora of 0..3 jobs x every filter of the bounded grammar
           MODE = "build"     constructor (AddJob / PushAtom / Combine / Negate ...), run with -simulate
           MODE = "file"      (corpus, filter, ids, ...) records of real executions, judged by TLC
+          MODE = "scale"     records (one LARGE corpus of 70..200 jobs, a family of filters, the real answers on the large
+                             corpus and on small sub-corpora): Find per filter, Explain, and Local across corpus sizes
    Every initial state of the first, second and fourth source is one (corpus, filter) case.
    Strings are sequences of code points (Spelling.tla looks inside them); keys are TLA+ strings. *)
 EXTENDS Naturals, Integers, Sequences, FiniteSets, TLC, Json, IOUtils, TLCExt, SequencesExt,
         FiniteSetsExt, Functions, Randomization
 
-CONSTANTS MODE,        \* "grid" | "universe" | "build" | "file"  (Spelling.tla: "spell"; GroupBy.tla: "group" | "gfile" | "cfile")
+CONSTANTS MODE,        \* "grid" | "universe" | "build" | "file" | "scale"  (Spelling.tla: "spell"; GroupBy.tla: "group" | "gfile" | "cfile")
           NCORP,       \* universe: number of sampled corpora per corpus size 2 and 3
           MAXJOBS,     \* build: maximal corpus size
           MAXDEPTH,    \* build: maximal filter depth
@@ -129,8 +131,8 @@ ReTableStatic ==
     <<<<97>>, <<97, 98>>>>,                \* a   ~ "ab"
     <<<<>>, <<49>>>>, <<<<>>, <<97, 98>>>> }   \* ""  ~ anything
 
-FileIn == IF MODE = "file" THEN ndJsonDeserialize(IOEnv.QUERY_IN) ELSE <<>>
-ReTable == IF MODE = "file"
+FileIn == IF MODE \in {"file", "scale"} THEN ndJsonDeserialize(IOEnv.QUERY_IN) ELSE <<>>
+ReTable == IF MODE \in {"file", "scale"}
            THEN UNION {{<<FileIn[i].re[k][1], FileIn[i].re[k][2]>> : k \in 1..Len(FileIn[i].re)} : i \in 1..Len(FileIn)}
            ELSE ReTableStatic
 ReMatch(r, s) == <<r, s>> \in ReTable
@@ -526,4 +528,34 @@ Verdict(i) ==
 Judge ==
   /\ TLCGet("level") >= 0
   /\ ndJsonSerialize(IOEnv.QUERY_OUT, [i \in 1..Len(FileIn) |-> Verdict(i)])
+
+\* MODE = "scale": whether a job matches must not depend on HOW MANY other jobs exist either (an implementation may
+\* switch strategy with the size of its index). Record i carries one large corpus, a family of filters, for every
+\* filter the real answer on the large corpus (ids[k]; errs[k] # "" if the query raised) and, for a few small
+\* sub-corpora (small[s].pos = positions in the large corpus), the real answers there (small[s].ids[k], positions of the
+\* large corpus). Every (large corpus, filter) pair is also an initial state (InitScale), so the theorems are checked on it.
+ScaleFilters(i) == [k \in 1..Len(FileIn[i].filters) |-> FilterFromWire(FileIn[i].filters[k])]
+InitScale == \E i \in 1..Len(FileIn) : \E k \in 1..Len(FileIn[i].filters) :
+               /\ corpus = FileCorpus(i) /\ stack = <<ScaleFilters(i)[k]>>
+               /\ WellTyped(corpus, Top)
+SeqSet(sq) == {sq[q] : q \in 1..Len(sq)}
+ScaleVerdict(i) ==
+  LET C == FileCorpus(i)   fs == ScaleFilters(i)   ds == DistinctSps(C)
+      sub(s) == [q \in 1..Len(FileIn[i].small[s].pos) |-> C[FileIn[i].small[s].pos[q]]]       \* the small corpus
+      \* the recorded answer on small corpus s for filter k, as positions of the small corpus
+      ans(s, k) == {q \in 1..Len(FileIn[i].small[s].pos) : FileIn[i].small[s].pos[q] \in SeqSet(FileIn[i].small[s].ids[k])}
+      verdictOf(k) ==
+        LET f == fs[k]   wt == ds /\ WellTyped(C, f)   R == SeqSet(FileIn[i].ids[k]) IN
+        [k |-> k, welltyped |-> wt,
+         want    |-> IF wt THEN SetToSeq(Find(C, f)) ELSE <<>>,
+         explain |-> IF wt /\ FileIn[i].errs[k] = "" THEN Explain(C, f, R) ELSE "n/a",
+         small   |-> [s \in 1..Len(FileIn[i].small) |-> IF wt /\ FileIn[i].small[s].errs[k] = "" THEN Explain(sub(s), f, ans(s, k)) ELSE "n/a"],
+         \* Local across corpus sizes, on the code's own answers: restricted to a sub-corpus the large answer is the small answer
+         local   |-> (wt /\ FileIn[i].errs[k] = "") =>
+                       \A s \in 1..Len(FileIn[i].small) : FileIn[i].small[s].errs[k] = "" =>
+                          R \cap SeqSet(FileIn[i].small[s].pos) = SeqSet(FileIn[i].small[s].ids[k])]
+  IN [i |-> i, njobs |-> Len(C), verdicts |-> [k \in 1..Len(fs) |-> verdictOf(k)]]
+ScaleJudge ==
+  /\ TLCGet("level") >= 0
+  /\ ndJsonSerialize(IOEnv.QUERY_OUT, [i \in 1..Len(FileIn) |-> ScaleVerdict(i)])
 =============================================================================
